@@ -48,4 +48,19 @@ example :
     Req.ok { param := "T", retPaths := [[.gc]], inPaths := [[.self_, .uninitBuilder]] } = false ∧
     Req.ok { param := "T", retPaths := [[.gc]], inPaths := [[.option]] } = false := by decide
 
+/-! ## The clause, as far as the signature model can express it
+
+"Every `Gc<T>` obtainable without `unsafe` refers to a `T` that the caller actually constructed."
+The signature model can only say that a handle on a caller-chosen parameter never comes out of a
+safe function that was not given a value of it, a pointer / handle to one, or a closure producing
+one; that such a function then returns *that* value (and not one made up from nothing) is
+parametricity of safe generic Rust code, which is trusted and not expressible here. -/
+def nothing_conjured_statement : Prop :=
+  ∀ s, s ∈ Generated.sigTable.sigs → s.isUnsafe = false →
+    ∀ r, r ∈ s.reqs → ∀ rp, rp ∈ r.retPaths → rp.any PathElem.isHandle = true →
+      (retStrength rp).toNat ≤ r.supply
+
+theorem nothing_conjured : nothing_conjured_statement :=
+  fun s hs hsafe r hr rp hrp hh => ok_spec _ no_conjure s hs hsafe r hr rp hrp hh
+
 end GcArena.C19s
